@@ -33,7 +33,10 @@ def _wrap(f):
     try:
         with warnings.catch_warnings():
             warnings.simplefilter('ignore')
-            return ['ok', [float(x) for x in f()]]
+            a = [float(x) for x in f()]; b = [float(x) for x in f()]      # the same table / signal again
+            if not all((u != u and v != v) or u == v for u, v in zip(a, b)) or len(a) != len(b):
+                return ['err', 'SecondCallDiffers']
+            return ['ok', a]
     except Exception as e:
         return ['err', type(e).__name__]
 
